@@ -194,4 +194,24 @@ theorem path_on_loop_variable_independent_of_outer (cfg : ReflectCfg) (s s' : St
   rw [path_on_loop_variable_uses_the_item cfg s sc n v rest expr hdot hsplit hb hv,
       path_on_loop_variable_uses_the_item cfg s' sc n v rest expr hdot hsplit hb hv]
 
+/-- AN ERROR IN THE BODY OF A LOOP FAILS THE LOOP (and with it the render: C12's "otherwise nil means a complete document"): when the
+    evaluation of one instance fails, `evalForItems` answers with that error - no later instance is evaluated, nothing is swallowed.
+    The model has one iteration for every collection (slices, arrays and maps of any element type arrive as lists of items), so the rule
+    does not depend on the kind of collection. -/
+theorem loop_body_error_fails_the_loop (W : World) (f : Nat) (ctx : Ctx) (st : St) (tag : Str) (attrs : List Attr) (kids : List Node)
+    (vars : List Str) (x : Val) (xs : List Val) (i : Nat) (sk : Stack) (c : String) (m : Str)
+    (hs : loopStack st.stack vars x i = some sk)
+    (he : evalList W f ctx { st with stack := sk } [.elem tag attrs kids] = .err c m) :
+    evalForItems W (f + 1) ctx st tag attrs kids vars (x :: xs) i = .err c m := by
+  simp [evalForItems, hs, he, bindR]
+
+/-- ... and an error in a LATER instance fails the loop just the same: the instances before it do not turn it into a success -/
+theorem loop_later_error_fails_the_loop (W : World) (f : Nat) (ctx : Ctx) (st st1 : St) (tag : Str) (attrs : List Attr) (kids : List Node)
+    (vars : List Str) (x : Val) (xs : List Val) (i : Nat) (sk : Stack) (res : List Node) (c : String) (m : Str)
+    (hs : loopStack st.stack vars x i = some sk)
+    (h1 : evalList W f ctx { st with stack := sk } [.elem tag attrs kids] = .ok (res, st1))
+    (he : evalForItems W f ctx { st1 with stack := (propagateNode W.P.cfg st1.stack (.elem tag attrs kids)).pop } tag attrs kids vars xs (i + 1) = .err c m) :
+    evalForItems W (f + 1) ctx st tag attrs kids vars (x :: xs) i = .err c m := by
+  simp [evalForItems, hs, h1, he, bindR, prepend]
+
 end Vuego.Props.C04
